@@ -403,6 +403,92 @@ pub fn main(args: &[String]) {
                 rep.distinct += 1;
             }
         }
+        Some("corpus") => {
+            // V on the repository's variable fonts: the serialized tuple data of (a sample of) the glyphs, sliced here from
+            // the raw gvar bytes, and the (point, dx, dy) list read-fonts yields for each tuple; GvarTrace!TGvarRead decodes
+            // the same bytes with PackedRuns.tla
+            use read_fonts::TableProvider;
+            let per_font: usize = arg_after(args, "--per-font").map(|s| s.parse().unwrap()).unwrap_or(12);
+            let be16 = |b: &[u8], o: usize| -> Option<usize> { b.get(o..o + 2).map(|x| u16::from_be_bytes([x[0], x[1]]) as usize) };
+            let be32 = |b: &[u8], o: usize| -> Option<usize> { b.get(o..o + 4).map(|x| u32::from_be_bytes([x[0], x[1], x[2], x[3]]) as usize) };
+            for dir in ["/repo/font-test-data/test_data/ttf", "/repo/klippa/test-data/fonts"] {
+                let Ok(rd) = std::fs::read_dir(dir) else { continue };
+                let mut files: Vec<_> = rd.filter_map(|e| e.ok()).map(|e| e.path()).filter(|p| p.extension().map(|e| e == "ttf").unwrap_or(false)).collect();
+                files.sort();
+                for path in files {
+                    let Ok(bytes) = std::fs::read(&path) else { continue };
+                    let Ok(f) = FontRef::new(&bytes) else { continue };
+                    let (Ok(gvar), Ok(loca), Ok(glyf)) = (f.gvar(), f.loca(None), f.glyf()) else { continue };
+                    let Some(raw) = f.table_data(Tag::new(b"gvar")).map(|d| d.as_bytes().to_vec()) else { continue };
+                    let name = path.file_name().unwrap().to_string_lossy().to_string();
+                    let (Some(axes), Some(n), Some(flags), Some(array)) = (be16(&raw, 4), be16(&raw, 12), be16(&raw, 14), be32(&raw, 16)) else { continue };
+                    rep.add("corpus_fonts_with_gvar", 1);
+                    let off = |i: usize| -> Option<usize> { if flags & 1 == 1 { be32(&raw, 20 + 4 * i) } else { be16(&raw, 20 + 2 * i).map(|v| v * 2) } };
+                    let step = (n / per_font).max(1);
+                    for gid in (0..n).step_by(step) {
+                        let (Some(a), Some(b)) = (off(gid), off(gid + 1)) else { continue };
+                        let Some(data) = raw.get(array + a..array + b) else { continue };
+                        if data.len() < 4 || data.len() > 2500 {
+                            continue;
+                        }
+                        let case = json!({"kind": "gvar-corpus", "font": name, "glyph": gid});
+                        // points of the glyph incl. the four phantom points
+                        let npoints = match loca.get_glyf(GlyphId::new(gid as u32), &glyf) {
+                            Ok(Some(read_fonts::tables::glyf::Glyph::Simple(g))) => g.num_points() + 4,
+                            Ok(Some(read_fonts::tables::glyf::Glyph::Composite(g))) => g.components().count() + 4,
+                            _ => continue,
+                        };
+                        let (count, data_off) = (be16(data, 0).unwrap(), be16(data, 2).unwrap());
+                        let ntuples = count & 0x0FFF;
+                        let shared = count & 0x8000 != 0;
+                        let mut hdr = 4;
+                        let mut sizes = vec![];
+                        let mut privates = vec![];
+                        let mut ok = true;
+                        for _ in 0..ntuples {
+                            let (Some(sz), Some(ti)) = (be16(data, hdr), be16(data, hdr + 2)) else {
+                                ok = false;
+                                break;
+                            };
+                            hdr += 4 + if ti & 0x8000 != 0 { 2 * axes } else { 0 } + if ti & 0x4000 != 0 { 4 * axes } else { 0 };
+                            sizes.push(sz);
+                            privates.push(ti & 0x2000 != 0);
+                        }
+                        let Some(ser) = data.get(data_off..) else { continue };
+                        if !ok || sizes.iter().sum::<usize>() > ser.len() {
+                            continue;
+                        }
+                        rep.evaluations += 1;
+                        // what the reader yields
+                        let read = guarded(|| -> Result<Vec<Vec<(u32, i32, i32)>>, String> {
+                            let d = gvar.glyph_variation_data(GlyphId::new(gid as u32)).map_err(|e| e.to_string())?.ok_or("no data")?;
+                            Ok(d.tuples().map(|t| t.deltas().map(|x| (x.position as u32, x.x_delta, x.y_delta)).collect()).collect())
+                        });
+                        let read = match read {
+                            Err(p) => {
+                                rep.violation(&format!("{name} glyph {gid}: reading the tuple deltas panicked: {p}"), case);
+                                continue;
+                            }
+                            Ok(Err(e)) => {
+                                rep.violation(&format!("{name} glyph {gid}: {e}"), case);
+                                continue;
+                            }
+                            Ok(Ok(r)) => r,
+                        };
+                        // the shared point numbers sit first in the serialized data; their length is found by the specification
+                        let mut tuples = vec![];
+                        let mut pos_after_shared: Option<usize> = None;
+                        if !shared {
+                            pos_after_shared = Some(0);
+                        }
+                        ev.push(json!({"op": "gvar_read", "font": name, "gid": gid, "npoints": npoints, "shared": shared, "ser": ser, "sizes": sizes, "privates": privates,
+                            "read": read.iter().map(|t| t.iter().map(|(p, x, y)| json!([p, x, y])).collect::<Vec<_>>()).collect::<Vec<_>>()}));
+                        let _ = (&mut tuples as &mut Vec<Value>, pos_after_shared);
+                        rep.distinct += 1;
+                    }
+                }
+            }
+        }
         _ => {
             eprintln!("usage: fv-write c10 iup --cases tlc.out [--every N] --out t.ndjson | random --seed N --n K --out t.ndjson");
             std::process::exit(2)
